@@ -65,6 +65,14 @@ impl Gcm {
     pub fn new(key: [u8; 32]) -> Gcm {
         Gcm(Aes256Gcm::new(&Key::<Aes256Gcm>::from(key)))
     }
+    /// AES-256-GCM seal with detached tag (used to *write* objects under the model's nonce and AAD).
+    pub fn seal(&self, nonce: &[u8], aad: &[u8], pt: &[u8]) -> Option<(Vec<u8>, Vec<u8>)> {
+        let nonce: [u8; 12] = nonce.try_into().ok()?;
+        let mut buf = pt.to_vec();
+        let tag = self.0.encrypt_inout_detached(&Nonce::from(nonce), aad, (&mut buf[..]).into()).ok()?;
+        let tag: [u8; 16] = tag.into();
+        Some((buf, tag.to_vec()))
+    }
     /// AES-256-GCM open with detached tag; `None` when the tag does not verify (or sizes are off).
     pub fn open(&self, nonce: &[u8], aad: &[u8], ct: &[u8], tag: &[u8]) -> Option<Vec<u8>> {
         let nonce: [u8; 12] = nonce.try_into().ok()?;
